@@ -1,10 +1,11 @@
 (* C18 property theorems: statements closed by `exact lemma` and Print Assumptions, plus non-vacuity Examples.
    PARTIAL claim: the theorems cover the modelled reducers (rate increase delta irate idelta sum/count/avg/min/max/
-   last_over_time changes resets), window selection, range-vs-instant evaluation and by/without grouping. Functions
+   last_over_time changes resets), window selection incl. the look-back boundary, range-vs-instant evaluation and by/without
+   grouping (partition). Functions
    outside this list, binary operators and label matchers are covered by the differential harness only. *)
 From Coq Require Import String.
 From Coq Require Import QArith ZArith List Bool Sorted Permutation.
-From OG Require Import C18.Model C18.ProofsA C18.ProofsB C18.ProofsC.
+From OG Require Import C18.Model C18.ProofsA C18.ProofsB C18.ProofsC C18.ProofsD.
 Import ListNotations.
 Open Scope Q_scope.
 
@@ -32,6 +33,19 @@ Theorem C18_instant_select_in_lookback : forall t offset l s,
   instant_select t offset l = Some s -> In s l /\ (t - offset - lookback <= fst s <= t - offset)%Z.
 Proof. exact instant_select_spec. Qed.
 Print Assumptions C18_instant_select_in_lookback.
+
+(* look-back boundary: a sample exactly look-back-delta old is still selected (upstream v0.50.1 rejects only
+   t < refTime - lookbackDelta); one millisecond older, or newer than the evaluation time, is not *)
+Theorem C18_instant_select_lookback_boundary_included : forall t offset v,
+  instant_select t offset [((t - offset - lookback)%Z, v)] = Some ((t - offset - lookback)%Z, v).
+Proof. exact instant_select_lookback_boundary_included. Qed.
+Theorem C18_instant_select_older_than_lookback_excluded : forall t offset v,
+  instant_select t offset [((t - offset - lookback - 1)%Z, v)] = None.
+Proof. exact instant_select_older_than_lookback_excluded. Qed.
+Theorem C18_instant_select_newer_excluded : forall t offset v,
+  instant_select t offset [((t - offset + 1)%Z, v)] = None.
+Proof. exact instant_select_newer_excluded. Qed.
+Print Assumptions C18_instant_select_lookback_boundary_included.
 
 (* split_merge_equals_whole, for EVERY cut of the window into records *)
 Theorem C18_extrapolated_split_merge_equals_whole : forall isCounter isRate t range offset cut,
@@ -93,6 +107,30 @@ Theorem C18_range_is_instants : forall (L : Type) (eval : list sample -> Z -> op
   (In t (steps start stop step) /\ In (ls, v) (instant_query L eval db t)).
 Proof. exact range_is_instants. Qed.
 Print Assumptions C18_range_is_instants.
+
+(* by / without: the groups are a partition of the input vector - every element lands in exactly one group (the
+   concatenated members are a permutation of the input), group keys are pairwise different, and each member's key is
+   the group's key; the aggregated vector carries exactly the group keys as label sets (a comparison or arithmetic
+   with a scalar does not touch them: the harness ties the transpiled grouping of `agg op scalar` to that of `agg`) *)
+Theorem C18_by_without_partition : forall (without : bool) (G : list string) (vec : list elem),
+  let gs := groups without G vec in
+  Permutation (concat (map snd gs)) vec /\ NoDup (map fst gs) /\
+  (forall g x, In g gs -> In x (snd g) -> fst g = group_key without G (fst x)).
+Proof. exact by_without_partition. Qed.
+Print Assumptions C18_by_without_partition.
+Theorem C18_aggregate_labels : forall op without G vec,
+  map fst (aggregate op without G vec) = map fst (groups without G vec).
+Proof. exact aggregate_labels. Qed.
+Theorem C18_by_without_dual : forall G (ls : labels) kv, In kv ls -> fst kv <> name_label ->
+  (In kv (key_by G ls) <-> ~ In kv (key_without G ls)).
+Proof. exact by_without_dual. Qed.
+Print Assumptions C18_by_without_dual.
+Example C18_example_groups :
+  map fst (aggregate AggSum true ["instance"%string]
+    [([("__name__", "m"); ("instance", "a"); ("job", "x")]%string, 1); ([("__name__", "m"); ("instance", "b"); ("job", "x")]%string, 2);
+     ([("__name__", "m"); ("instance", "a"); ("job", "y")]%string, 4)])
+  = [[("job", "x")]; [("job", "y")]]%string.
+Proof. reflexivity. Qed.
 
 (* non-vacuity: the hypotheses are satisfiable and the functions compute the upstream values on a small counter
    with a reset (window [0, 60000], samples every 15 s: 10 20 5 15 25) *)
